@@ -586,11 +586,15 @@ func (dr *vDriver) opSetGS(gs *common.GuardianSet) bool {
 	for _, k := range gs.Keys {
 		ks = append(ks, hex.EncodeToString(k[:]))
 	}
+	// the harness keeps its OWN copy of every set it installs (monitors judge against these copies): the object handed to the node
+	// may be aliased, overwritten in place or re-used by the implementation, and that must not rewrite the reference
+	own := &common.GuardianSet{Index: gs.Index, Keys: append([]ethcommon.Address{}, gs.Keys...)}
+	given := &common.GuardianSet{Index: gs.Index, Keys: append([]ethcommon.Address{}, gs.Keys...)}
 	return dr.do(vOp{K: "setgs", Keys: ks, Idx: gs.Index}, func() {
 		// the Run loop's case: p.gs = <-p.setC ; p.gst.Set(p.gs)
-		dr.p.gs = gs
-		dr.p.gst.Set(gs)
-		dr.sets = append(dr.sets, gs)
+		dr.p.gs = given
+		dr.p.gst.Set(given)
+		dr.sets = append(dr.sets, own)
 	})
 }
 
@@ -614,7 +618,10 @@ func (dr *vDriver) opMsg(k *common.MessagePublication) bool {
 	dr.noteSign(d)
 	dg := hex.EncodeToString(d)
 	nsend := len(dr.sendC)
-	gsBefore := dr.p.gs
+	var gsBefore *common.GuardianSet // the harness's own copy of the set in force now (nil before the first set)
+	if n := len(dr.sets); n > 0 {
+		gsBefore = dr.sets[n-1]
+	}
 	isGov := k.EmitterAddress == dr.p.governanceEmitterAddress && k.EmitterChain == dr.p.governanceChainId
 	ok := dr.do(op, func() { dr.p.handleMessage(dr.ctx, k) })
 	_ = nsend
@@ -655,7 +662,10 @@ func (dr *vDriver) opInject(v *vaa.VAA) bool {
 	d := dr.noteVAA(v)
 	dr.noteSign(d)
 	dg := hex.EncodeToString(d)
-	gsBefore := dr.p.gs
+	var gsBefore *common.GuardianSet // the harness's own copy of the set in force now (nil before the first set)
+	if n := len(dr.sets); n > 0 {
+		gsBefore = dr.sets[n-1]
+	}
 	ok := dr.do(op, func() { dr.p.handleInjection(dr.ctx, v) })
 	dr.localGS[dg] = gsBefore
 	dr.localIdx[dg] = false
